@@ -14,20 +14,21 @@ def run(ctx):
     q = ctx.quick()
     # 1. the design (no deviation): the four statements of C18 over all interleavings of writes, function changes, the
     #    per-document steps of up to two resync runs (either option), racing writes, requests - bounded model
-    if not os.environ.get("VERIF_C18_DEVSKIP"):
-        model_check(ctx, SPEC, "MC_Resync", "MC_Resync.cfg" if q else "MC_Resync_thorough.cfg", timeout=3000)
+    model_check(ctx, SPEC, "MC_Resync", "MC_Resync.cfg" if q else "MC_Resync_thorough.cfg", timeout=3000)
     ctx.cov["exhaustive"] = True
     # 2. each NAMED deviation of the code (specs/Resync/NOTES.md), alone, breaks a statement in the model: these are
     #    candidates only - what counts is what pass P finds on the recorded real state below
-    ctx.cov["model_deviation_counterexamples"] = {} if os.environ.get("VERIF_C18_DEVSKIP") else deviations(ctx)
+    #    (thorough tier; a deviation that no longer breaks anything in the model is not modelled: exit 2)
+    if not q:
+        ctx.cov["model_deviation_counterexamples"] = deviations(ctx)
 
     # 3. scenarios: TLC enumerates the one-document scenario space exhaustively (a seeded sample / all of it is run) and
     #    samples the four-document space; the driver expands each into the canonical action sequence
     rnd = random.Random(ctx.seed)
     tabs, small = scenarios(ctx, "Enum_Resync.cfg" if q else "Enum_Resync_thorough.cfg", None)
     rnd.shuffle(small)
-    small = small[:110 if q else 100000]
-    tabs2, big = scenarios(ctx, "Sim_Resync.cfg", 130 if q else 1500)
+    small = small[:110 if q else 1300]
+    tabs2, big = scenarios(ctx, "Sim_Resync.cfg", 130 if q else 900)
     tabs.update(tabs2)
     scns = [dict(s, id=i) for i, s in enumerate(small + big)]
     jobs = [{"id": s["id"], "admch": s["adm"]["ch"], "admro": s["adm"]["ro"], "steps": expand(s, tabs)} for s in scns]
@@ -181,7 +182,10 @@ def explains(root, v):
     if v["inv"] == "FromScratch":
         if root["fld"] == "ch":
             return root["d"] in v["docs"]
-        return not v["accessEq"]
+        # a stale grant changes not only WHICH channels a user has but also SINCE WHEN (a since-0 feed backfills a channel
+        # from the granting sequence and leaves tombstones out of the backfill): with the same final access the two
+        # databases can still list different documents
+        return True
     if v["inv"] == "Idempotent":      # the second run stored what the first one left stale
         return root["l"] < v["l"] and root["d"] in v["dstore"]
     return False
